@@ -341,7 +341,7 @@ def parseParamNames (inp : Input) (pe : Nat → PState → Except PErr (PNode ×
 
 /-- extractSignature: collect token values up to the matching `>` -/
 def sigLoop (inp : Input) : Nat → Nat → String → PState → Except PErr (String × PState)
-  | 0, _, sig, p => .ok (sig, p)
+  | 0, _, _, p => .error (tokErr "fuel" p.tok)
   | n + 1, depth, sig, p =>
     if p.tok.type == .braceOpen || p.tok.type == .eof then .ok (sig, p)
     else do
@@ -517,7 +517,7 @@ def led (inp : Input) (pe : Nat → PState → Except PErr (PNode × PState)) (t
 /-- the `for rbp < bp(token)` loop -/
 def ledLoop (inp : Input) (pe : Nat → PState → Except PErr (PNode × PState)) :
     Nat → Nat → PNode → PState → Except PErr (PNode × PState)
-  | 0, _, lhs, p => .ok (lhs, p)
+  | 0, _, _, p => .error (tokErr "fuel" p.tok)
   | n + 1, rbp, lhs, p =>
     if rbp < bp p.tok.type then do
       let t := p.tok
@@ -542,8 +542,9 @@ def isLiteralNode : Node Float → Bool
   | .num _ | .str _ | .bool _ | .null => true
   | _ => false
 
+mutual
 /-- dotNode / predicateNode / singletonArrayNode / NameNode / NegationNode / GroupNode rewrites -/
-partial def optimize : PNode → Except PErr (Node Float)
+def optimize : PNode → Except PErr (Node Float)
   | .str s => .ok (.str s)
   | .num x => .ok (.num x)
   | .bool b => .ok (.bool b)
@@ -557,10 +558,10 @@ partial def optimize : PNode → Except PErr (Node Float)
     | .num x => .ok (.num (-x))
     | _ => .ok (.neg r)
   | .range l r => do .ok (.range (← optimize l) (← optimize r))
-  | .array items => do .ok (.array (← items.mapM optimize))
+  | .array items => do .ok (.array (← optimizeL items))
   | .object pairs => do
-    .ok (.object (← pairs.mapM fun (k, v) => do pure ((← optimize k), (← optimize v))))
-  | .block exprs => do .ok (.block (← exprs.mapM optimize))
+    .ok (.object (← optimizeP pairs))
+  | .block exprs => do .ok (.block (← optimizeL exprs))
   | .wildcard => .ok .wildcard
   | .descendent => .ok .descendent
   | .transform p u d => do
@@ -574,15 +575,15 @@ partial def optimize : PNode → Except PErr (Node Float)
     match sig with
     | none => .ok (.lambda ps b)
     | some s => .ok (.typedLambda ps s b)
-  | .partial_ f args => do .ok (.partial_ (← optimize f) (← args.mapM optimize))
+  | .partial_ f args => do .ok (.partial_ (← optimize f) (← optimizeL args))
   | .placeholder => .ok .placeholder
-  | .call f args => do .ok (.call (← optimize f) (← args.mapM optimize))
+  | .call f args => do .ok (.call (← optimize f) (← optimizeL args))
   | .group e pairs => do
     let e' ← optimize e
     match e' with
     | .group _ _ => .error { type := "ErrGroupGroup" }
     | _ => do
-      let ps ← pairs.mapM fun (k, v) => do pure ((← optimize k), (← optimize v))
+      let ps ← optimizeP pairs
       .ok (.group e' ps)
   | .cond c t e => do
     let c' ← optimize c
@@ -597,7 +598,7 @@ partial def optimize : PNode → Except PErr (Node Float)
   | .concat l r => do .ok (.concat (← optimize l) (← optimize r))
   | .sort e terms => do
     let e' ← optimize e
-    let ts ← terms.mapM fun (d, x) => do pure (d, (← optimize x))
+    let ts ← optimizeT terms
     .ok (.sort e' ts)
   | .apply l r => do .ok (.apply (← optimize l) (← optimize r))
   | .dot l r => do
@@ -629,6 +630,30 @@ partial def optimize : PNode → Except PErr (Node Float)
         | .predicate e filters => .ok (.path (initRev.reverse ++ [.predicate e (filters ++ [r'])]) keep)
         | _ => .ok (.path (initRev.reverse ++ [.predicate last [r']]) keep)
     | n => .ok (.predicate n [r'])
+
+/-- `mapM optimize` over a list of nodes (first error wins), written out so that the recursion is structural -/
+def optimizeL : List PNode → Except PErr (List (Node Float))
+  | [] => .ok []
+  | x :: xs => do
+    let y ← optimize x
+    let ys ← optimizeL xs
+    .ok (y :: ys)
+
+def optimizeP : List (PNode × PNode) → Except PErr (List (Node Float × Node Float))
+  | [] => .ok []
+  | (k, v) :: rest => do
+    let k' ← optimize k
+    let v' ← optimize v
+    let r ← optimizeP rest
+    .ok ((k', v') :: r)
+
+def optimizeT : List (SortDir × PNode) → Except PErr (List (SortDir × Node Float))
+  | [] => .ok []
+  | (d, x) :: rest => do
+    let x' ← optimize x
+    let r ← optimizeT rest
+    .ok ((d, x') :: r)
+end
 
 /-- jparse.Parse -/
 def parse (inp : Input) : Except PErr (Node Float) := do
